@@ -52,6 +52,7 @@ const (
 	c16WDrain = "auto-destroy-after-drained-insert"
 	c16WIdle  = "idle-close-stale-interaction-time"
 	c16WMark  = "deletion-mark-survives-concurrent-set"
+	c16WOrder = "immediate-write-batches-out-of-order"
 )
 
 type C16Scenario struct {
@@ -116,9 +117,6 @@ type c16Env struct {
 }
 
 var c16E *c16Env
-
-// c16DebugDump, when set (debugging only), renders the stored entries of a key for failure messages.
-var c16DebugDump func(s *c16Sw, key string) string
 
 func c16WithRig(f func()) {
 	c16E = &c16Env{r: rig.New(rig.Options{Patterns: c16Patterns()})}
@@ -796,9 +794,6 @@ func (s *c16Sw) judge(final map[string]string) pbt.Outcome {
 			if present {
 				now = fmt.Sprintf("the key holds %q", v)
 			}
-			if c16DebugDump != nil {
-				now += "; file: " + c16DebugDump(s, k)
-			}
 			return pbt.Failf("lost-write", "swamp %s (%s): acknowledged %s of key %q = %q [%d,%d] is gone after re-open (%s) and no write/delete/shift of the key or destroy of the swamp was running or issued afterwards (history: %s)",
 				s.name, cfg, w.what, k, w.val, w.call, w.ret, now, s.hist(k))
 		}
@@ -1069,10 +1064,13 @@ func genC16Swamp(t *rapid.T, free, slow bool) C16Swamp {
 	} else {
 		sw.Idle = rapid.SampledFrom([]int{600, 600, 0, 1}).Draw(t, "idle")
 	}
+	// immediate-write swamps: single-key deletes/shifts inside bursts are the trigger of finding c16WOrder (a pending delete
+	// marker that a concurrent handler has snapshotted while the key is re-created)
+	dels := !(sw.WI == 0 && pbt.Open("C16", c16WOrder))
 	nb := rapid.IntRange(2, 4).Draw(t, "nbursts")
 	idles := 0
 	for b := 0; b < nb; b++ {
-		st := C16Step{Kind: "burst", W: genC16Writers(t, 5, 5, true)}
+		st := C16Step{Kind: "burst", W: genC16Writers(t, 5, 5, dels)}
 		if free {
 			for i := rapid.IntRange(0, 2).Draw(t, "nev"); i > 0; i-- {
 				st.Ev = append(st.Ev, C16Event{Kind: rapid.SampledFrom([]string{"close", "close", "delall", "shiftall", "destroy"}).Draw(t, "evkind"),
@@ -1099,7 +1097,7 @@ func genC16Swamp(t *rapid.T, free, slow bool) C16Swamp {
 		case "gap":
 			sw.Steps = append(sw.Steps, C16Step{Kind: "gap", Ms: rapid.SampledFrom([]int{0, 1, 20, 200}).Draw(t, "gapms")})
 		case "closeduring", "destroyduring":
-			sw.Steps = append(sw.Steps, C16Step{Kind: k, W: genC16Writers(t, 4, 3, true)})
+			sw.Steps = append(sw.Steps, C16Step{Kind: k, W: genC16Writers(t, 4, 3, dels)})
 		default:
 			sw.Steps = append(sw.Steps, C16Step{Kind: k})
 		}
@@ -1200,6 +1198,23 @@ func genC16WitnessMark(t *rapid.T) C16Scenario {
 		Plan: []vsched.Action{{Site: "gateway:Set:3:StartTreasureGuard", Hit: 2, Kind: "pause", Until: "deleted", MaxWaitMs: 2000}}}
 }
 
+// immediate-write mode: every save runs its own fileWriterHandler; a handler that has snapshotted the pending delete
+// marker of k but not yet written it is overtaken by the handler of a LATER Set that re-creates k
+func genC16WitnessOrder(t *rapid.T) C16Scenario {
+	key := rapid.IntRange(0, 3).Draw(t, "key")
+	other := (key + 1 + rapid.IntRange(0, 2).Draw(t, "other")) % 4
+	sw := C16Swamp{Idle: 600, WI: 0}
+	sw.Steps = append(sw.Steps,
+		C16Step{Kind: "burst", W: []C16Writer{{Ops: []C16Op{{Kind: "inc"}, {Kind: "set", Key: key}}}}}, // handler passages 1 and 2
+		C16Step{Kind: "burst", W: []C16Writer{{Ops: []C16Op{{Kind: "delshared", Key: key}}}}},          // marker queued, nothing written
+		C16Step{Kind: "burst", W: []C16Writer{
+			{Ops: []C16Op{{Kind: "set", Key: other}}},                                         // its handler (passage 3) snapshots the marker and is held
+			{After: "paused", Ops: []C16Op{{Kind: "set", Key: key}, {Kind: "get", Key: key}}}, // re-creates the key, acknowledged, then releases the held handler
+		}})
+	return C16Scenario{Mode: "fast", Free: true, Final: "close", Swamps: []C16Swamp{sw},
+		Plan: []vsched.Action{{Site: "swamp:fileWriterHandler:5:Delete", Hit: 3, Kind: "pause", Until: "site:gateway:Get:2:BeginVigil", MaxWaitMs: 3000}}}
+}
+
 // ---------------------------------------------------------------------------
 
 const c16RuleOpen = "timeline per swamp: 2–4 bursts of 1–5 concurrent writer goroutines × 1–5 requests (Set on 4 shared keys with unique values, IncrementInt64 / PatchTreasures(create) on per-writer keys, " +
@@ -1214,6 +1229,9 @@ const c16RuleFree = "as main, plus 0–2 lifecycle events (Close, delete-all, sh
 	"moment the listener's condition becomes true (close-after-idle + 1 s … + 2.1 s)"
 
 func c16AnyOpen() bool {
+	if pbt.Open("C16", c16WOrder) {
+		pbt.Excluded("C16", "main", "write interval 0: Delete/ShiftByKeys of single keys inside bursts (open finding "+c16WOrder+")")
+	}
 	if pbt.Open("C16", c16WMark) {
 		pbt.Excluded("C16", "main", "Delete of a key concurrent with a write of the same key (open finding "+c16WMark+")")
 	}
@@ -1301,6 +1319,17 @@ func TestC16WitnessDeletionMark(t *testing.T) {
 			Quick: 32, Thorough: 300,
 			Gen: genC16WitnessMark, Run: runC16,
 		}, c16WMark, "lost-write")
+	})
+}
+
+func TestC16WitnessWriteOrder(t *testing.T) {
+	c16WithRig(func() {
+		c16CheckSites(t)
+		pbt.Witness(t, pbt.Spec[C16Scenario]{
+			ID: "C16", Facet: "witness-" + c16WOrder, Rule: "forced schedule, write interval 0: the fileWriterHandler of a Set on another key is held after it snapshotted the pending delete marker of k; a later Set{k} is written and acknowledged; the held handler then writes the delete",
+			Quick: 32, Thorough: 300,
+			Gen: genC16WitnessOrder, Run: runC16,
+		}, c16WOrder, "lost-write")
 	})
 }
 
